@@ -113,6 +113,7 @@ def tpl_cmd(cls, m, k, i1, i2, i3, flag, g, n, setv, _twin=False):
                 name, member = nm, mb
         if name is None:
             return 0
+        w.op(("TaskPool." if cls == 0 else "SimpleTaskPool.") + name, k, i1, i2, i3, flag, g, n, setv)
         A, B = _setup(w, cls, "A"), _setup(w, cls, "B")
         w.settle()
         for tag in ("A", "B"):
